@@ -5,6 +5,7 @@
    unforgeability are explicit hypotheses of each theorem.  The share `s` is ARBITRARY
    (adversarial); `g` is the published version. *)
 From Coq Require Import List NArith Bool.
+From Verif Require Import Model.ServerMap Model.MutRetry Proofs.MutRetry.
 From Verif Require Import Model.MutVerify Proofs.MutVerify Proofs.MutVerifyComplete.
 Import ListNotations.
 Local Open Scope N_scope.
@@ -78,6 +79,50 @@ Theorem genuine_share_accepted :
       read_accepts V pair h_blk h_fp verify prefix_of veq fingerprint g shnum seg = true.
 Proof. exact genuine_share_accepted_ok. Qed.
 Print Assumptions genuine_share_accepted.
+
+(* "IF AT LEAST k INTACT SHARES OF THE NEWEST PUBLISHED VERSION ARE REACHABLE, THE READ SUCCEEDS":
+   version selection and retry of download_best_version (Model/MutRetry.v, the logic as repaired
+   in /repo 6b48610).  g has k >= 1 good (= exactly as published, hence accepted, theorem above)
+   distinct shares among those located; every other version that sorts at or above g -- e.g. the
+   "versions" that shares with an altered, unsigned offset table are filed under -- has fewer than
+   k good ones.  Then the read returns g, whichever bad shares each failed attempt happened to
+   see (pick is arbitrary but makes progress), within length+1 attempts. *)
+Theorem read_finds_newest_with_k_good_shares :
+  forall (pick : list gshare -> version -> gshare -> bool),
+    (forall l v, (exists s, In s l /\ is_bad_of v s = true) ->
+                 exists s, In s l /\ is_bad_of v s = true /\ pick l v s = true) ->
+    forall g l,
+      1 <= vk g -> vk g <= good_count l g ->
+      (forall w, w <> g -> version_leb g w = true -> good_count l w < vk w) ->
+      download_best_version pick l = Some g.
+Proof. exact download_finds_genuine_ok. Qed.
+Print Assumptions read_finds_newest_with_k_good_shares.
+
+(* and the loop never ends with a version that lacks k good distinct shares *)
+Theorem read_result_has_k_good_shares :
+  forall pick fuel l v, retry pick fuel l = Some v -> vk v <= good_count l v.
+Proof. exact retry_sound. Qed.
+Print Assumptions read_result_has_k_good_shares.
+
+(* non-vacuity: 2-of-4 file, genuine version (seq 3, tag 5) on shares 0 and 1; shares 2 and 3 carry an
+   altered offset table and are filed as version (seq 3, tag 9), which sorts above and looks
+   recoverable: two attempts fail on it (one share ruled out each time), the third returns the
+   genuine version; a single retry on a NEW map (fuel 2, nothing ruled out) would have given up *)
+Definition ex_g := {| seq := 3; vtag := 5; vk := 2 |}.
+Definition ex_f := {| seq := 3; vtag := 9; vk := 2 |}.
+Definition ex_l : list gshare :=
+  [ {| gs_share := {| srv := 1; shnum := 0; ver := ex_g |}; gs_good := true |};
+    {| gs_share := {| srv := 2; shnum := 1; ver := ex_g |}; gs_good := true |};
+    {| gs_share := {| srv := 3; shnum := 2; ver := ex_f |}; gs_good := false |};
+    {| gs_share := {| srv := 4; shnum := 3; ver := ex_f |}; gs_good := false |} ].
+Definition ex_pick_first (l : list gshare) (v : version) (s : gshare) : bool :=
+  match filter (is_bad_of v) l with x :: _ => shnum (gs_share x) =? shnum (gs_share s) | [] => false end.
+Example ex_retry :
+  best_recoverable_version (vis ex_l) = Some ex_f /\
+  download_best_version ex_pick_first ex_l = Some ex_g /\
+  retry ex_pick_first 1 ex_l = None /\ retry ex_pick_first 2 ex_l = Some ex_g /\
+  download_best_version (fun _ _ _ => true) ex_l = Some ex_g.
+Proof. vm_compute. repeat split. Qed.
 
 (* Merkle binding used above *)
 Theorem merkle_path_binds_leaf :
